@@ -352,3 +352,74 @@ Proof.
   destruct dels as [|d dels]; [rewrite ED, EE; split; reflexivity|].
   assert (N : d :: dels <> []) by discriminate. destruct (Hne N) as [_ [F _]]. discriminate.
 Qed.
+
+(* ---------- foreign files, over whole histories (no symbolic links) ---------- *)
+Section Foreign.
+Variable fixed : bool.
+Variable opt : options.
+
+Lemma writes_subset_outputs phys st oc st' r p :
+  step_gen phys fixed opt st oc = (st', r) -> In p (writes_of (r_effects r)) -> In p (map o_path (r_outputs r)).
+Proof.
+  intros E H. unfold writes_of in H. apply in_flat_map in H as [e [He Hp]].
+  destruct e as [q c|q]; simpl in Hp; [|contradiction]. destruct Hp as [Hp|[]]. subst q.
+  destruct (writes_are_reported_all _ _ _ _ _ _ _ _ _ E He) as [_ [_ [_ [o [Ho [Ep _]]]]]].
+  rewrite <- Ep. apply in_map. exact Ho.
+Qed.
+
+(* one step leaves alone every path that the context never wrote and that is
+   not a reported output of the step *)
+Lemma foreign_step st oc st' r W p :
+  step_gen phys_id fixed opt st oc = (st', r) ->
+  table_owned opt st W -> ~ In p W -> ~ In p (map o_path (r_outputs r)) ->
+  lookup (disk st') p = lookup (disk st) p /\ ~ In p (W ++ writes_of (r_effects r)).
+Proof.
+  intros E Inv HW Hout. split.
+  - destruct (r_failed_early r) eqn:HF; [|destruct (write opt) eqn:EW; [destruct (to_stdout opt) eqn:ES|]].
+    3:{ destruct (successful_step_disk _ _ _ _ _ _ E HF EW ES) as [_ HD]. rewrite HD.
+        assert (EF : find (fun o => path_eqb (o_path o) p) (r_outputs r) = None) by (apply find_path_None; exact Hout).
+        rewrite EF. destruct (mem p (keys (latest st))) eqn:EM; [|reflexivity].
+        exfalso. apply HW. apply Inv; try assumption. apply mem_In. exact EM. }
+    all: match goal with
+         | |- _ =>
+           assert (HH : r_failed_early r = true \/ write opt = false \/ to_stdout opt = true) by tauto;
+           destruct (failed_step_shape _ _ _ _ _ _ _ E HH) as [dels [_ [ED [Hk Hne]]]];
+           rewrite ED, lookup_apply_deletes;
+           change (map phys_id dels) with (map (fun x : path => x) dels); rewrite map_id;
+           destruct (mem p dels) eqn:EM; [|reflexivity];
+           exfalso; apply mem_In in EM;
+           assert (N : dels <> []) by (intro N; subst; contradiction);
+           destruct (Hne N) as [_ [_ [A B]]]; apply HW; apply Inv; try assumption; apply Hk; exact EM
+         end.
+  - intro H. apply in_app_or in H as [H|H]; [contradiction|].
+    apply Hout. eapply writes_subset_outputs; eassumption.
+Qed.
+
+Lemma foreign_run ocs : forall st W p,
+  table_owned opt st W -> ~ In p W ->
+  (forall res, In res (trace_gen phys_id fixed opt st ocs) -> ~ In p (map o_path (r_outputs res))) ->
+  lookup (disk (run_gen phys_id fixed opt st ocs)) p = lookup (disk st) p.
+Proof.
+  induction ocs as [|oc ocs IH]; intros st W p Inv HW Hall; [reflexivity|].
+  rewrite run_gen_cons. simpl in Hall.
+  destruct (step_gen phys_id fixed opt st oc) as [st' r] eqn:ES. cbn [fst].
+  assert (Hr : ~ In p (map o_path (r_outputs r))) by (apply Hall; left; reflexivity).
+  destruct (foreign_step _ _ _ _ _ _ ES Inv HW Hr) as [HD HW'].
+  rewrite (IH st' (W ++ writes_of (r_effects r)) p).
+  - exact HD.
+  - eapply table_owned_step; eassumption.
+  - exact HW'.
+  - intros res Hres. apply Hall. right. exact Hres.
+Qed.
+
+End Foreign.
+
+(* a file that is never a reported output of any rebuild of a history is, at
+   the end of the history, what it was at the start *)
+Lemma foreign_files_untouched_all fixed opt d0 ocs p :
+  (forall res, In res (trace_gen phys_id fixed opt (init d0) ocs) -> ~ In p (map o_path (r_outputs res))) ->
+  lookup (disk (run_gen phys_id fixed opt (init d0) ocs)) p = lookup d0 p.
+Proof.
+  intro H. apply (foreign_run fixed opt ocs (init d0) [] p); [|intros []|exact H].
+  intros _ _ q F. destruct F.
+Qed.
